@@ -3,6 +3,7 @@ package integrationdiagram
 import (
 	"errors"
 	"fmt"
+	"sort"
 	"strings"
 
 	"github.com/anz-bank/sysl/pkg/mermaid"
@@ -35,10 +36,10 @@ func generateFullIntegrationDiagramHelper(m *sysl.Module,
 	integrationPairs *[]integrationPair) (string, error) {
 	var result string
 	result = mermaid.GeneratedHeader + "graph TD\n"
-	for appName, appValue := range m.Apps {
-		endPoints := appValue.Endpoints
-		for _, endPoint := range endPoints {
-			statements := endPoint.Stmt
+	for _, appName := range sortedAppNames(m.Apps) {
+		endPoints := m.Apps[appName].Endpoints
+		for _, epName := range sortedEndpointNames(endPoints) {
+			statements := endPoints[epName].Stmt
 			result += printIntegrationDiagramStatements(m, statements, appName, integrationPairs)
 		}
 	}
@@ -57,8 +58,8 @@ func generateIntegrationDiagramHelper(m *sysl.Module, appName string,
 	}
 	endPoints := m.Apps[appName].Endpoints
 	// For every endpoint, the statements are retrieved and we pass it to the printer to print appropriate mermaid code
-	for _, endPoint := range endPoints {
-		statements := endPoint.Stmt
+	for _, epName := range sortedEndpointNames(endPoints) {
+		statements := endPoints[epName].Stmt
 		result += printIntegrationDiagramStatements(m, statements, appName, integrationPairs)
 	}
 	return result, nil
@@ -72,23 +73,43 @@ func generateMultipleAppIntegrationDiagramHelper(m *sysl.Module, appNames []stri
 		if app := m.Apps[appName]; app != nil {
 			endPoints := app.Endpoints
 			result += printClassStatement(appName)
-			for _, endPoint := range endPoints {
-				statements := endPoint.Stmt
+			for _, epName := range sortedEndpointNames(endPoints) {
+				statements := endPoints[epName].Stmt
 				result += printIntegrationDiagramStatements(m, statements, appName, integrationPairs)
 			}
 		}
 	}
 
 	// Get all applications which call an App in appNames
-	for currentApp, appValue := range m.Apps {
-		endPoints := appValue.Endpoints
-		for _, endPoint := range endPoints {
+	for _, currentApp := range sortedAppNames(m.Apps) {
+		endPoints := m.Apps[currentApp].Endpoints
+		for _, epName := range sortedEndpointNames(endPoints) {
 			for _, targetApp := range appNames {
-				result += printIntegrationDiagramStatementsTargetedApp(m, endPoint.Stmt, currentApp, integrationPairs, targetApp)
+				result += printIntegrationDiagramStatementsTargetedApp(m, endPoints[epName].Stmt, currentApp, integrationPairs, targetApp)
 			}
 		}
 	}
 	return result, nil
+}
+
+// sortedAppNames and sortedEndpointNames give the keys of the model's maps in alphabetical order, so that the diagram
+// text does not depend on Go's map iteration order.
+func sortedAppNames(apps map[string]*sysl.Application) []string {
+	names := make([]string, 0, len(apps))
+	for name := range apps {
+		names = append(names, name)
+	}
+	sort.Strings(names)
+	return names
+}
+
+func sortedEndpointNames(endpoints map[string]*sysl.Endpoint) []string {
+	names := make([]string, 0, len(endpoints))
+	for name := range endpoints {
+		names = append(names, name)
+	}
+	sort.Strings(names)
+	return names
 }
 
 func printClassStatement(className string) string {
